@@ -6,7 +6,9 @@
 package sqlite
 
 import (
+	"bytes"
 	"context"
+	"runtime"
 	"time"
 )
 
@@ -15,7 +17,26 @@ import (
 // could pick up the scripted CommitEvery and block in binlogWaitDBSync, holding the write connection, at a
 // moment the sequential harness does not expect. From now on e.ctx is a cancelled context except inside a
 // VerifTxLoopStart window.
-func (e *Engine) VerifParkTxLoop() { e.stop() }
+//
+// It returns only when no txLoop goroutine is left (checked on the goroutine dump): a goroutine that has not
+// reached its select yet would otherwise see the context and period installed later by VerifTxLoopStart.
+// The harness is sequential, so no other engine's txLoop is alive at this point.
+func (e *Engine) VerifParkTxLoop() bool {
+	e.stop()
+	buf := make([]byte, 1<<16)
+	for deadline := time.Now().Add(5 * time.Second); time.Now().Before(deadline); {
+		n := runtime.Stack(buf, true)
+		if n == len(buf) {
+			buf = make([]byte, 2*len(buf))
+			continue
+		}
+		if !bytes.Contains(buf[:n], []byte("sqlite.(*Engine).txLoop")) {
+			return true
+		}
+		time.Sleep(20 * time.Microsecond)
+	}
+	return false
+}
 
 // VerifTxLoopStart runs the engine's real txLoop (engine.go) on a private context with a short period and returns
 // completed() = "at least one iteration has finished its commit" (non-blocking: false while the write connection
